@@ -297,6 +297,10 @@ class World(object):
         self.finished = []
         self._archived_finished = []
         self.scheduled = set()
+        # instances the ops address: the generated population plus the ones
+        # scheduled between passes (`schedule` op), in order of appearance
+        self.specs = list(case['instances'])
+        self.late = []
         self.base_world = None
         self.reader_sorted = False
         self.base = None
@@ -462,12 +466,19 @@ class World(object):
 
     # -- the world between two passes of the archiver -----------------------------
     def apply_steps(self, group):
-        """Clock advance, then producers acting through the real publish()."""
+        """Clock advance, then producers acting through the real publish().
+
+        /scheduled changes in both directions between two passes: `unschedule`
+        removes an instance, `schedule` is the master creating a NEW instance
+        (masterapi.create_apps: /scheduled/<app>#<id> plus the `pending`
+        event) followed by the first events the scheduler and the node
+        publish for it. Later ops address the new instance like any other
+        (`i` indexes population + instances scheduled so far)."""
         self._archived_finished = [rec for rec in self.finished
                                    if not self._fin_live(rec)]
         self.clock.advance(group.get('advance', 60))
         adm = self.admin
-        specs = self.case['instances']
+        specs = self.specs
         saved_app_host = app_zk._HOSTNAME
         saved_srv_host = server_zk._HOSTNAME
         hook, self.tree.before_write = self.tree.before_write, None
@@ -480,11 +491,15 @@ class World(object):
                     obj = app_event(kind, oper['v'], inst)
                     (_ts, _src, what, etype, edata, payload) = obj.to_data()
                     app_zk._HOSTNAME = HOSTS[oper['v'] % len(HOSTS)]
-                    app_zk.publish(adm, when_str(now_us - oper.get('back', 0)),
+                    # no event of an instance predates its creation
+                    back = 0 if inst in self.late else oper.get('back', 0)
+                    app_zk.publish(adm, when_str(now_us - back),
                                    what, etype, edata, payload)
                 elif oper['op'] == 'unschedule' and specs:
                     inst = instance_name(specs[oper['i'] % len(specs)])
                     zkutils.ensure_deleted(adm, z.path.scheduled(inst))
+                elif oper['op'] == 'schedule':
+                    self._schedule_new(oper)
                 elif oper['op'] == 'server_event':
                     srv = 'node%d.example.com' % (1 + oper['i'] % 3)
                     kind = SERVER_KINDS[oper['k'] % len(SERVER_KINDS)]
@@ -499,6 +514,38 @@ class World(object):
             server_zk._HOSTNAME = saved_srv_host
             self.tree.before_write = hook
         self._collect()
+
+    def _schedule_new(self, oper):
+        """The master schedules a new instance (an id no instance had so far)
+        and it starts: /scheduled/<instance>, the `pending` event of
+        create_apps, then the generated first events, one millisecond apart
+        at the current time."""
+        spec = {'app': oper['app'], 'id': oper['id']}
+        inst = instance_name(spec)
+        if any(instance_name(other) == inst for other in self.specs):
+            return          # ids are never reused
+        adm = self.admin
+        zkutils.put(adm, z.path.scheduled(inst),
+                    {'memory': '100M', 'cpu': '10%', 'disk': '100M'})
+        self.specs.append(spec)
+        self.late.append(inst)
+        for evt in [{'k': 1, 'v': 0}] + list(oper.get('events', [])):
+            kind = APP_KINDS[evt['k'] % len(APP_KINDS)]
+            obj = app_event(kind, evt['v'], inst)
+            (_ts, _src, what, etype, edata, payload) = obj.to_data()
+            app_zk._HOSTNAME = HOSTS[evt['v'] % len(HOSTS)]
+            app_zk.publish(adm, when_str(self.clock.us), what, etype, edata,
+                           payload)
+            self.clock.advance(0.001)
+
+    def late_scheduled_expired(self):
+        """Measurement: live events of instances scheduled between passes
+        that are still scheduled and already older than the trace expiry."""
+        edge = self.clock.peek() - self.params['trace_expire']
+        late = set(self.late) & self.scheduled
+        return len([evt for evt in self.events['trace']
+                    if evt['object'] in late and evt['ts'] < edge and
+                    evt['path'] in self.tree.nodes])
 
     def _old_rows(self, fam, count, salt):
         """Rows of events archived long ago (no longer live)."""
@@ -591,6 +638,8 @@ class World(object):
         self.finished = list(self.base_world[1])
         self._archived_finished = []
         self.scheduled = set(self.base_world[2])
+        self.specs = list(self.case['instances'])
+        self.late = []
         restore_module_state(PRISTINE)
 
     def restart_process(self):
